@@ -52,7 +52,7 @@ func (w *XMLWriter) Attr(key, value string) *XMLWriter {
 		w.b.WriteString(" ")
 		w.b.WriteString(key)
 		w.b.WriteString("=\"")
-		w.writeEsc(value)
+		w.writeEsc(value, true)
 		w.b.WriteString("\"")
 	} else {
 		log.Print("tag is not open")
@@ -86,7 +86,7 @@ func (w *XMLWriter) write(s string) {
 func (w *XMLWriter) Write(s string) *XMLWriter {
 	w.checkOpenTag()
 	w.checkIndent()
-	w.writeEsc(s)
+	w.writeEsc(s, false)
 	return w
 }
 
@@ -96,8 +96,23 @@ func (w *XMLWriter) WriteHTML(s template.HTML) *XMLWriter {
 	return w
 }
 
-func (w *XMLWriter) writeEsc(s string) {
+// writeEsc writes s as character data (attr=false) or as part of an attribute value (attr=true).
+// A carriage return is always written as a character reference, and so are tab and line feed inside
+// attribute values: an XML parser normalises the literal characters (CR becomes LF, white space in
+// attribute values becomes a blank), so only the references give back the original string.
+func (w *XMLWriter) writeEsc(s string, attr bool) {
 	for _, r := range s {
+		switch {
+		case r == '\r':
+			w.b.WriteString("&#xD;")
+			continue
+		case attr && r == '\t':
+			w.b.WriteString("&#x9;")
+			continue
+		case attr && r == '\n':
+			w.b.WriteString("&#xA;")
+			continue
+		}
 		switch r {
 		case '\'':
 			w.b.WriteString("&apos;")
